@@ -78,9 +78,10 @@ theorem T08_mcx_total (ut : Bool) (cs : List Nat) (t : Nat) (fs : List Nat)
 /-- FULL statement including signs (needed for `use_toffolis=False`, where the congruent
     Toffolis reverse the sign of |100⟩ and the signs must cancel across the doubled ladder):
     the decomposition maps the signed basis state `(-1)^s |b⟩` to `(-1)^s |mcxSpec b⟩`.
-    NOT proved in general (`T08_mcx` above is its sign-free part, for both `use_toffolis`
-    values); it is checked on every run by executing `runS` on the REAL gate lists for every
-    basis state (m ≤ 7, see tools/props/C08.py) and by the exact unitary comparison. -/
+    PROVED for all inputs in QV/Props/C08b.lean (`T08_mcx_signed_statement_proved`,
+    `T08_mcx_signed`; `T08_mcx` above is its sign-free part); in addition it is checked on
+    every run by executing `runS` on the REAL gate lists for every basis state (m ≤ 7, see
+    tools/props/C08.py) and by the exact unitary comparison. -/
 def T08_mcx_signed_statement : Prop :=
   ∀ (ut : Bool) (fuel : Nat) (cs : List Nat) (t : Nat) (fs : List Nat) (gs : List CGate),
     (cs ++ t :: fs).Nodup → xDecompose ut fuel cs t fs = .ok gs →
